@@ -137,7 +137,19 @@ def main(argv):
                 dump = os.path.join(run.dir, "sys_harness.txt")
                 env = dict(os.environ, XFEMM_VERIF_DUMPSYS=dump)
                 try:
-                    r = subprocess.run([ax, run.base], stdout=subprocess.PIPE, stderr=subprocess.PIPE, text=True, env=env, timeout=600)
+                    # only the FIRST system is compared: the harness is stopped after a while even if the nonlinear loop is still running
+                    hp = subprocess.Popen([ax, run.base], stdout=subprocess.PIPE, stderr=subprocess.PIPE, text=True, env=env)
+                    try:
+                        so, se = hp.communicate(timeout=90)
+                        hrc = hp.returncode
+                    except subprocess.TimeoutExpired:
+                        hp.kill()
+                        so, se = hp.communicate()
+                        hrc = 0 if (os.path.exists(dump) and "END" in open(dump).read()) else -999
+                    class _R:
+                        pass
+                    r = _R()
+                    r.stdout, r.stderr, r.returncode = so or "", se or "", hrc
                     proto = [l for l in r.stdout.splitlines() if l.split() and l.split()[0] in APROTO]
                     if r.returncode != 0 or not os.path.exists(dump) or not proto:
                         ck.violation("assembly-crash", "the real HSolver (in-process) failed on a generated problem (rc=%d): %s %s" % (r.returncode, r.stdout[-200:], r.stderr[-300:]),
@@ -154,7 +166,25 @@ def main(argv):
                     ck.violation("assembly-timeout", "the real HSolver (in-process) did not finish within 600 s", dict(files=run.files()))
                 run.restore_mesh()
             slog = os.path.join(run.dir, "solve.log")
-            rc = run.solve(env=dict(os.environ, XFEMM_VERIF_SOLVELOG=slog))
+            rc = run.solve(env=dict(os.environ, XFEMM_VERIF_SOLVELOG=slog), timeout=240 if ("radiation" in p.features or "tk" in p.features) else 600)
+            if rc == -999 and os.path.exists(slog):
+                rr = []
+                for l_ in open(slog):
+                    mres_ = [x_ for x_ in l_.split() if x_.startswith("relres=")]
+                    if mres_:
+                        rr.append(float(mres_[0].split("=")[1]))
+                if len(rr) > 200 and max(rr) <= 1e-6 and ("tk" in p.features or "radiation" in p.features):
+                    # every linear system is solved to 1e-10, but the fixed-point iteration on k(T) (no relaxation, no pass limit) cycles
+                    stats["picard_cycles"] = stats.get("picard_cycles", 0) + 1
+                    ck.violation("picard-cycle", "nonlinear conductivity / radiation (%s, %s): hsolver is still iterating after 240 s and %d passes whose linear systems are all "
+                                 "solved to %.1e - the fixed-point iteration cycles" % (p.units, p.ptype, len(rr), max(rr)), dict(files=run.files()))
+                    continue
+            if rc == -999 and "radiation" in p.features and os.path.exists(slog) and sum(1 for _ in open(slog)) > 200:
+                # the same runaway as below, in the variant that never stagnates: hundreds of Picard passes and no end
+                stats["radiation_runaway"] = stats.get("radiation_runaway", 0) + 1
+                ck.violation("radiation-runaway", "radiation boundary with extreme sources (%s, %s): hsolver is still iterating after 240 s and %d Picard passes"
+                             % (p.units, p.ptype, sum(1 for _ in open(slog))), dict(files=run.files()))
+                continue
             if rc != 0 or not os.path.exists(run.solution_path()):
                 ck.violation("solver-failed", "hsolver failed (rc=%s) on a well-formed generated problem: %s" % (rc, run.solve_out[-300:]),
                              dict(files=run.files()))
